@@ -1,11 +1,11 @@
 CONSTANTS
   Key = {"a", "b", "c", "d", "s"}
   NoKey = "-"
-  DocDels <- MCDocDels
-  Authors = {"a", "b", "c", "s"}
-  NewDocs = {3}
+  DocDels <- MCDocDels2
+  Authors = {"a", "b", "s"}
+  NewDocs = {2, 3, 4}
   InPlace = FALSE
-  MaxOps = 3
+  MaxOps = 4
   MaxActs = 1
   MaxForks = 1
 INIT Init
